@@ -476,7 +476,20 @@ func runTemplates(ctx *bex.Ctx, h *harness) {
 			emit("let c=" + c + "; [c." + m + ",c.string()].string()")
 		}
 	}
-	ctx.SpaceDone(fmt.Sprintf("%d wrappers x %d bodies x {tick, ptick} (counting closures used through pure higher-order built-ins inside functions/closures applied to constants and to the argument), %d constants x %d methods x 4 placements (one constant list used twice, once through a copying method); each function generated once and evaluated on a = 0,1,2,1; results re-observed after the later evaluations", len(wrappers), len(bodies), len(consts), len(methods)))
+	// (c) names: a local named like a static function, a closure stored in a constant map under a method's
+	// name, a lazy constant iterated more than once — what the folded program does must be what the
+	// unfolded one does
+	for _, src := range []string{
+		"(sqrt->sqrt(16))(x->x+1)+a", "let sqrt=x->x+1; sqrt(16)+a", "let abs=x->x*100; abs(0-3)+a", "func abs(x) x*2; abs(0-3)+a", "func min(x,y) x*10+y; min(1,2)+a",
+		"(abs->[1,2].map(e->abs(0-e)).sum())(x->x+a)", "let sqrt=x->x+a; sqrt(16)", "(sqrt->(y->sqrt(y))(16))(x->x+1)+a", "let string=x->7; string(1)+a",
+		"{get:k->42,a:7}.get(\"a\")+a", "{put:(k,v)->5}.put(\"a\",1)+a", "let m={get:k->42,k:7}; m.get(\"k\")+a", "{size:k->99,a:1}.size(0)+a", "{map:f->5,a:1}.map(3)+a",
+		"{k:7,get:k->42}.get(\"k\")*10+{k:7}.get(\"k\")+a", "let m={list:k->[k]}; m.list(a)[0]",
+		"let t=numbers(10).top(3); t.map(x->x*a).sum()+t.map(x->x+a).sum()", "let t=[1,2,3,4].map(e->e).top(3); [t.sum(),t.sum(),t.size()].string()", "numbers(10).top(3).map(x->x*a).sum()",
+		"let t=numbers(10).skip(7); t.sum()+t.sum()+a", "let f=(x->numbers(10).top(3).map(y->y*x).sum()); f(a)+f(a+1)",
+	} {
+		emit(src)
+	}
+	ctx.SpaceDone(fmt.Sprintf("21 programs with locals named like static functions, closures under method names in constant maps and lazy constants iterated twice; %d wrappers x %d bodies x {tick, ptick} (counting closures used through pure higher-order built-ins inside functions/closures applied to constants and to the argument), %d constants x %d methods x 4 placements (one constant list used twice, once through a copying method); each function generated once and evaluated on a = 0,1,2,1; results re-observed after the later evaluations", len(wrappers), len(bodies), len(consts), len(methods)))
 }
 
 func replay(repro map[string]any) (string, bool) {
